@@ -3,6 +3,8 @@ CFG = {
     "level": "fault_enumeration",
     "engine": "E1 vh + E2 sc shim (plan inherited through fork) + helper binary dumpenv",
     "package": "c13", "bin": "c13",
+    # same oracle source compiled against tiny-std WITHOUT the `start` feature (the property quantifies over both)
+    "variants": [{"package": "c13ns", "bin": "c13ns"}],
     "profiles": ["dev", "release"], "workers": 8,
     "technique": "property-based testing with syscall fault injection on both sides of fork, differential against a helper that dumps what the child actually observes",
     "rule": ("Generated commands over the helper binary dumpenv (0..12 args incl. empty, long and non-UTF-8; environment untouched or 0..12 provided "
@@ -13,10 +15,11 @@ CFG = {
              "returns in exactly one process (a return in another pid writes a marker and _exits); on Ok the helper's dump equals the configuration "
              "(argv, environment block, cwd, pgid, ids, stdio identities, pipe connectivity, no descriptor beyond 0,1,2), wait = exit status, try_wait "
              "agrees; on a failing step Err carries that step's positive errno, the program did not run, no zombie and no running process is left. "
-             "Non-trivial = at least one non-default knob; distinct by hash of the case."),
-    "assumptions": ["uid/gid changes only to the current ids (sandbox runs as one user)", "Environment::Inherit needs the start-up code of a no-libc binary: covered by the probe engine, not here",
+             "The same Command value is spawned a second time (when no RawFd stream and no fault is involved) and judged again; the caller's own "
+             "descriptors 0/1/2 are closed around the call in a share of the cases. Non-trivial = at least one non-default knob; distinct by hash of the case."),
+    "assumptions": ["uid/gid changes only to the current ids (sandbox runs as one user)", "runs twice: tiny-std with the `start` feature (binary c13) and without it (binary c13ns)", "Environment::Inherit needs the start-up code of a no-libc binary and is not asserted here",
                     "ownership of a Stdio::RawFd descriptor is undocumented: both 'closed by spawn' and 'left open' are accepted and recorded"],
     "required_classes": ["spawn:ok-dump-verified", "spawn:fail-pipe2", "spawn:fail-fork", "spawn:fail-child-dup2", "spawn:fail-child-chdir", "spawn:fail-child-closure",
-                         "spawn:fail-child-execve", "spawn:sync-read-eintr", "spawn:stdio-pipe", "spawn:stdio-null", "spawn:stdio-rawfd", "spawn:env-provided"],
+                         "spawn:fail-child-execve", "spawn:sync-read-eintr", "spawn:stdio-pipe", "spawn:stdio-null", "spawn:stdio-rawfd", "spawn:env-provided", "spawn:command-reused", "spawn:caller-std-fd-closed"],
     "timeout_quick": 900, "timeout_thorough": 7200,
 }
